@@ -422,6 +422,90 @@ theorem C16_fixed_late_reparse :
     okWith (resolve m84 ⟨[("PIKA_COMMANDLINE_OPTIONS", "--pika:pu-offset=0")], ["input.dat"]⟩)
       (fun r => r.argv == ["input.dat"] && r.workers == 4) = true := by rfl
 
+
+/-! ## C16f: quoting of the arguments on their way through the configuration registry
+
+The entry function `f(int, char**)` does not receive the process' argv: `init_helper` rebuilds it from
+the string `pika.reconstructed_cmd_line`, and the late command-line handling re-reads
+`pika.commandline.options`.  Both strings are split with `split_unix`.  In the pinned tree the writers do
+not escape what the reader interprets (witnesses below, found by the monitors of checks/C16.py and
+repaired on hooks-C16f); for the repaired writers the round trip is the identity for **every** argument. -/
+
+/-- **Non-pika arguments reach the entry function unchanged** (repaired tree), for every list of
+    non-empty positional arguments whatever characters they contain (quotes, backslashes, blanks, `=`):
+    the positional part of the reconstructed command line, split by `split_unix` and filtered by
+    `init_helper`, is the list of arguments itself. -/
+theorem C16_positional_roundtrip (pos : List String) (hne : pos ≠ []) :
+    entryArgvVia embedNew pos = some pos := by
+  have hw : ∀ a : List Char, ((escQ a).any isSepC) = true ∨ a.any isSepC = false := by
+    intro a
+    rw [any_escQ_sep]
+    cases a.any isSepC <;> simp
+  have hne' : pos.map (·.toList) ≠ [] := by
+    cases pos with
+    | nil => exact absurd rfl hne
+    | cons a t => simp
+  have h := splitU_joinWith posPrefix posPrefix_plain (fun a => (escQ a).any isSepC) hw (pos.map (·.toList)) hne'
+  have he : (fun a => wrapIf ((escQ a).any isSepC) (escQ a)) = embedNew := rfl
+  rw [he] at h
+  unfold entryArgvVia splitUnix
+  rw [h]
+  simp only [Option.map_some]
+  rw [filter_nonempty_prefixed, helperArgs_positional, List.map_map]
+  have hid : (String.ofList ∘ fun x : String => x.toList) = id := by
+    funext x; simp [String.ofList_toList]
+  rw [hid, List.map_id]
+
+/-- The late command-line handling of the repaired tree never fails on the quoting of an argument: the
+    arguments written by `encode_and_enquote` are read back unchanged by `split_unix` (so `pika::init`
+    cannot return -1 because of a backslash or a quote character in an argument). -/
+theorem C16_late_reparse_total (args : List String) (hne : args ≠ []) :
+    ∃ ts, lateReparse encodeNew args = some ts ∧ ts = args.filter (fun a => !a.toList.isEmpty) := by
+  have hw : ∀ a : List Char, ((escQ a).any (fun c => isSepC c || c == '"')) = true ∨ a.any isSepC = false := by
+    intro a
+    cases h : a.any isSepC with
+    | false => exact Or.inr rfl
+    | true =>
+      left
+      have : (escQ a).any isSepC = true := by rw [any_escQ_sep]; exact h
+      exact any_or_left _ _ _ this
+  have hne' : args.map (·.toList) ≠ [] := by
+    cases args with
+    | nil => exact absurd rfl hne
+    | cons a t => simp
+  have h := splitU_joinWith [] (by simp) (fun a => (escQ a).any (fun c => isSepC c || c == '"')) hw
+    (args.map (·.toList)) hne'
+  have he : (fun a => wrapIf ((escQ a).any (fun c => isSepC c || c == '"')) (escQ a)) = encodeNew := rfl
+  rw [he] at h
+  refine ⟨_, ?_, rfl⟩
+  simp only [lateReparse, splitUnix, h, Option.map_some, List.nil_append, List.map_id']
+  congr 1
+  induction args with
+  | nil => rfl
+  | cons a t ih =>
+    have iht : ∀ (l : List String), List.map String.ofList (List.filter (fun t => !t.isEmpty) (List.map (fun x => x.toList) l))
+        = List.filter (fun a => !a.toList.isEmpty) l := by
+      intro l
+      induction l with
+      | nil => rfl
+      | cons b r ihr =>
+        simp only [List.map_cons, List.filter_cons]
+        split <;> simp_all [String.ofList_toList]
+    exact iht (a :: t)
+
+set_option maxRecDepth 100000 in
+/-- Pinned tree: a positional argument containing a double quote does **not** reach the entry function
+    unchanged - `prog 'a"b' tail` calls the entry function with the single argument
+    `ab --pika:positional=tail` (replayed on the real code: findings/C16-positional-quote-mangled.json). -/
+theorem C16_defect_positional_quote_mangled :
+    entryArgvVia embedOld ["a\"b", "tail"] = some ["ab --pika:positional=tail"] := by decide
+
+set_option maxRecDepth 100000 in
+/-- Pinned tree: a backslash in any argument makes the late command-line handling throw
+    (`unknown escape sequence`): `prog 'e\f'` makes `pika::init` return -1 without calling the entry
+    function (findings/C16-positional-backslash-refused.json). -/
+theorem C16_defect_backslash_stops_startup : lateReparse encodeOld ["e\\f"] = none := by decide
+
 /-! ## non-vacuity -/
 
 set_option maxRecDepth 100000 in
